@@ -274,12 +274,16 @@ class LoopRewrite(ast.NodeTransformer):
 
 
 class WhileOnce(ast.NodeTransformer):
-    """`while c: body`  ->  `if c: body`  : ONE generic iteration from the (caller-supplied) generic pre-state.
-    Used with an inductive invariant: the caller sets up an arbitrary state satisfying the invariant and checks it after the body."""
+    """`while c: body`  ->  `for _ in (None,): if not c: break; body`  : ONE generic iteration from the (caller-supplied)
+    generic pre-state; `break` / `continue` keep their meaning.  Used with an inductive invariant: the caller sets up an
+    arbitrary state satisfying the invariant and checks it after the body."""
 
     def visit_While(self, node):
         self.generic_visit(node)
-        return ast.copy_location(ast.If(test=node.test, body=node.body, orelse=node.orelse or []), node)
+        guard = ast.If(test=ast.UnaryOp(op=ast.Not(), operand=node.test), body=[ast.Break()], orelse=[])
+        loop = ast.For(target=ast.Name(id="__pyvc_once", ctx=ast.Store()), iter=ast.Tuple(elts=[ast.Constant(value=None)], ctx=ast.Load()),
+                       body=[guard] + node.body, orelse=node.orelse or [])
+        return ast.copy_location(loop, node)
 
 
 def while_once(tree):
